@@ -17,6 +17,7 @@ package main
 
 import (
 	"fmt"
+	"os"
 	"math/big"
 	"regexp"
 	"strings"
@@ -689,6 +690,24 @@ func c12Classify(k, n int, ops []c12Opnd, res, cv *big.Int) string {
 }
 
 func runC12(c *Ctx) error {
+	// developer knob: C12_ONLY=eval|doors|bind|calls|multi runs one family only
+	switch os.Getenv("C12_ONLY") {
+	case "eval":
+		runC12Eval(c)
+		return nil
+	case "doors":
+		runC12Doors(c)
+		return nil
+	case "bind":
+		runC12Bind(c)
+		return nil
+	case "calls":
+		runC12Calls(c)
+		return nil
+	case "multi":
+		runC12Multi(c)
+		return nil
+	}
 	widths := []int{1, 2, 7, 8, 9, 31, 32, 33, 63, 64, 65, 127, 128, 129, 130}
 	if !c.Thorough() {
 		widths = []int{1, 8, 31, 32, 33, 64, 65, 128}
